@@ -151,7 +151,23 @@ def tr_get_symbols(src):
     return table
 
 
-CALL_W_EXPECT_HEAD = "symbol = get(0).get_symbol(); if ((symbol.get_type().is_function() || symbol.get_type().is_function_external()) && symbol.get_data()) { fun = (function_t*)symbol.get_data();"
+CALL_W_EXPECT_HEAD = "symbol = %s; if ((symbol.get_type().is_function() || symbol.get_type().is_function_external()) && symbol.get_data()) { fun = (function_t*)symbol.get_data();"
+CALLEE_PLAIN = "get(0).get_symbol()"
+CALLEE_RESOLVED = "called_function_symbol(get(0))"
+CALLEE_HELPER = ("if (callee.get_kind() == DOT && callee.get(0).get_type().is_process()) { const auto* process = "
+                 "static_cast<const instance_t*>(callee.get(0).get_symbol().get_data()); if (process != nullptr && process->templ != nullptr && "
+                 "static_cast<uint32_t>(callee.get_index()) < process->templ->frame.get_size()) return process->templ->frame[callee.get_index()]; } "
+                 "return callee.get_symbol();")
+
+
+def tr_callee_helper(src):
+    """the helper that resolves `P.f` callees, if the source has one (proposed_fixes/C11-process-dot-call.diff)"""
+    if "called_function_symbol" not in src:
+        return False
+    body = norm(function_body(src, r"static\s+symbol_t\s+called_function_symbol\s*\(\s*const\s+expression_t&\s*callee\s*\)\s*\{", "called_function_symbol"))
+    if body != CALLEE_HELPER:
+        raise TranslateError("called_function_symbol changed: %r" % body)
+    return True
 
 
 def tr_writes(src):
@@ -168,18 +184,22 @@ def tr_writes(src):
     if norm(post) != "":
         raise TranslateError("collect_possible_writes: code after the switch")
     lhs_kinds, call_kinds = [], []
-    flags = {"callAddsChanges": False, "callAddsRefArgs": False}
+    flags = {"callAddsChanges": False, "callAddsRefArgs": False, "resolvesDot": False}
     for labels, b in split_cases(sw, "collect_possible_writes"):
         if labels == ["default"]:
             if b != "break;":
                 raise TranslateError("collect_possible_writes: default does %r" % b)
         elif b == "get(0).get_symbols(symbols); break;":
             lhs_kinds += labels
-        elif b.startswith(CALL_W_EXPECT_HEAD):
+        elif b.startswith(CALL_W_EXPECT_HEAD % CALLEE_PLAIN) or b.startswith(CALL_W_EXPECT_HEAD % CALLEE_RESOLVED):
             if call_kinds:
                 raise TranslateError("collect_possible_writes: two call groups")
             call_kinds += labels
-            rest = b[len(CALL_W_EXPECT_HEAD):].strip()
+            resolved = b.startswith(CALL_W_EXPECT_HEAD % CALLEE_RESOLVED)
+            if resolved and not tr_callee_helper(src):
+                raise TranslateError("collect_possible_writes uses called_function_symbol, which is not defined")
+            flags["resolvesDot"] = resolved
+            rest = b[len(CALL_W_EXPECT_HEAD % (CALLEE_RESOLVED if resolved else CALLEE_PLAIN)):].strip()
             a = "symbols.insert(fun->changes.begin(), fun->changes.end());"
             if rest.startswith(a):
                 flags["callAddsChanges"] = True
@@ -207,7 +227,7 @@ def tr_reads(src):
     propagates = bool(m.group(1))
     if norm(post) != "":
         raise TranslateError("collect_possible_reads: code after the switch")
-    ident, call_kinds, rnd, adds_dep = False, [], [], False
+    ident, call_kinds, rnd, adds_dep, resolves_dot = False, [], [], False, False
     for labels, b in split_cases(sw, "collect_possible_reads"):
         if labels == ["default"]:
             if b != "break;":
@@ -217,13 +237,18 @@ def tr_reads(src):
                 raise TranslateError("collect_possible_reads: get_symbol() inserted for %r" % labels)
             ident = True
         elif "fun->depends" in b or "get(0).get_symbol()" in b:
-            exp = ("{ auto symbol = get(0).get_symbol(); if (auto type = symbol.get_type(); type.is_function() || "
+            exp = ("{ auto symbol = %s; if (auto type = symbol.get_type(); type.is_function() || "
                    "type.is_function_external()) { if (auto* data = symbol.get_data(); data) { auto fun = "
                    "static_cast<function_t*>(data); %s} } break; }")
-            if b == exp % "symbols.insert(fun->depends.begin(), fun->depends.end()); ":
+            dep = "symbols.insert(fun->depends.begin(), fun->depends.end()); "
+            if b in (exp % (CALLEE_PLAIN, dep), exp % (CALLEE_RESOLVED, dep)):
                 adds_dep = True
-            elif b != exp % "":
+            elif b not in (exp % (CALLEE_PLAIN, ""), exp % (CALLEE_RESOLVED, "")):
                 raise TranslateError("collect_possible_reads: unrecognised call-case body %r" % b)
+            if CALLEE_RESOLVED in b:
+                if not tr_callee_helper(src):
+                    raise TranslateError("collect_possible_reads uses called_function_symbol, which is not defined")
+                resolves_dot = True
             call_kinds += labels
         else:
             m = re.match(r"if \(collectRandom\) \{ ((?:symbols\.insert\(symbol_t\(\)\); )+)\} break;$", b)
@@ -233,7 +258,7 @@ def tr_reads(src):
                 rnd.append(l)
     if not ident:
         raise TranslateError("collect_possible_reads: IDENTIFIER case missing")
-    return propagates, call_kinds, adds_dep, rnd
+    return propagates, call_kinds, adds_dep, rnd, resolves_dot
 
 
 # ------------------------------------------------------------------------------------------------ statements
@@ -443,6 +468,23 @@ def tr_restricted(repo):
     return False   # functions are not followed ("TODO; fixme")
 
 
+def tr_argument_rule(tc):
+    body = norm(function_body(tc, r"void\s+TypeChecker::visitInstance\s*\(\s*instance_t&\s*instance\s*\)\s*\{", "TypeChecker::visitInstance"))
+    if ("bool ref = parameter.get_type().is(REF); bool constant = parameter.get_type().is_constant(); "
+            "bool computable = isCompileTimeComputable(argument);") not in body:
+        raise TranslateError("TypeChecker::visitInstance: the ref/constant/computable definitions changed")
+    m = re.search(r"bool computable = isCompileTimeComputable\(argument\); if \((.*?)\) \{ handleError\(argument, \"\$Incompatible_argument\"\); continue; \}", body)
+    if not m:
+        raise TranslateError("TypeChecker::visitInstance: $Incompatible_argument test not found")
+    disj = [d.strip() for d in m.group(1).split("||")]
+    known = {"(!ref && !computable)": "value", "(ref && !constant && !isUniqueReference(argument))": "unique", "(ref && constant && !computable)": "constref"}
+    for d in disj:
+        if d not in known:
+            raise TranslateError("TypeChecker::visitInstance: unrecognised disjunct %r" % d)
+    have = {known[d] for d in disj}
+    return "value" in have, "constref" in have
+
+
 def tr_sites(tc):
     """Every handleError(..., "$X") with X ending in _must_be_side-effect_free or = Must_be_computable_at_compile_time,
     together with the (normalised) condition of the innermost enclosing `if`/`else if` -- as (message, condition-kind)."""
@@ -536,20 +578,37 @@ SITE_OF = {
 }
 
 
-def translate(repo="/repo", kind_names=None):
+def translate(repo="/repo", kind_names=None, strict_c13=True):
+    """strict_c13=False (used by C11): a change in the parts only C13's theorems read (the `restricted` closure, visitProcess,
+    the $Incompatible_argument rule) does not break the tie of C11; the flags then take their weakest value and the change
+    is recorded in info["c13_only_errors"]."""
     ex = read(repo, "src/expression.cpp")
     hdr = read(repo, "include/utap/statement.h")
     st = read(repo, "src/statement.cpp")
     tc = read(repo, "src/typechecker.cpp")
     gs = tr_get_symbols(ex)
     w_rec, w_lhs, w_call, w_flags = tr_writes(ex)
-    r_prop, r_call, r_dep, r_rnd = tr_reads(ex)
+    r_prop, r_call, r_dep, r_rnd, r_dot = tr_reads(ex)
     classes = tr_statement_classes(hdr)
     rows, deps_random = tr_visitors(hdr, st, classes)
     vf = tr_visit_function(tc)
     ctc_random = tr_ctc(tc)
     sites = tr_sites(tc)
-    deps_follow = tr_restricted(repo)
+    c13_errors = []
+    try:
+        deps_follow = tr_restricted(repo)
+    except TranslateError as ex_:
+        if strict_c13:
+            raise
+        c13_errors.append(str(ex_))
+        deps_follow = False
+    try:
+        arg_value, arg_constref = tr_argument_rule(tc)
+    except TranslateError as ex_:
+        if strict_c13:
+            raise
+        c13_errors.append(str(ex_))
+        arg_value, arg_constref = False, False
     if kind_names is not None:
         for k in [k for k, _ in gs] + w_lhs + w_call + r_call + r_rnd:
             if k not in kind_names:
@@ -594,6 +653,8 @@ def translate(repo="/repo", kind_names=None):
           "  writeCallKinds := " + lean_list([lk(k) for k in w_call]),
           "  callAddsChanges := " + b(w_flags["callAddsChanges"]),
           "  callAddsRefArgs := " + b(w_flags["callAddsRefArgs"]),
+          "  writeCallResolvesDot := " + b(w_flags["resolvesDot"]),
+          "  readCallResolvesDot := " + b(r_dot),
           "  readCallKinds := " + lean_list([lk(k) for k in r_call]),
           "  callAddsDepends := " + b(r_dep),
           "  readsPropagatesRandom := " + b(r_prop),
@@ -603,7 +664,7 @@ def translate(repo="/repo", kind_names=None):
           "  visit := genVisit"]
     for k, v in vf.items():
         L.append("  %s := %s" % (k, b(v)))
-    L += ["  depsFollowFunctions := " + b(deps_follow)]
+    L += ["  depsFollowFunctions := " + b(deps_follow), "  argValueNeedsCtc := " + b(arg_value), "  argConstRefNeedsCtc := " + b(arg_constref)]
     L += ["  sites := " + lean_list(["(.%s, %d)" % (s, n) for s, n in sorted(cnt.items())], 4),
           "  unrecognisedSites := %d" % other, "",
           "/-- statement classes found in include/utap/statement.h (all modelled; the translator fails closed otherwise) -/",
@@ -612,7 +673,8 @@ def translate(repo="/repo", kind_names=None):
     info = {"get_symbols": gs, "write_lhs": w_lhs, "write_call": w_call, "flags": w_flags, "read_call": r_call,
             "random": r_rnd, "classes": [c[0] for c in classes], "rows": rows, "visitFunction": vf, "sites": cnt,
             "unrecognisedSites": other, "visitFlags": dict(flags), "readsPropagatesRandom": r_prop,
-            "dependsCollectsRandom": deps_random, "ctcCollectsRandom": ctc_random, "callAddsDepends": r_dep}
+            "dependsCollectsRandom": deps_random, "ctcCollectsRandom": ctc_random, "callAddsDepends": r_dep,
+            "c13_only_errors": c13_errors}
     return "\n".join(L), info
 
 
